@@ -124,8 +124,15 @@ def run_chunk(pid, base_seed, start, n, per_run_timeout, want_digest_every):
         "samples": [], "digests": [], "violation": None, "errors": [],
     }
     gc_every = getattr(prop, "GC_EVERY", 20)
+    marker = None
+    root = os.environ.get("SIMTRAITS_ROOT")
+    if root and os.path.isdir(root):
+        marker = os.path.join(root, "inflight.%d" % os.getpid())
     try:
         for i in range(start, start + n):
+            if marker:
+                with open(marker, "w") as mf:
+                    mf.write("%d" % i)
             seed = run_seed(base_seed, pid, i)
             try:
                 trace = prop.gen(seed)
@@ -167,6 +174,9 @@ def run_chunk(pid, base_seed, start, n, per_run_timeout, want_digest_every):
                 gc.collect()
     finally:
         faulthandler.cancel_dump_traceback_later()
+    if marker:
+        with open(marker, "w") as mf:
+            mf.write("-")
     gc.collect()
     return res
 
@@ -466,6 +476,91 @@ def search(prop, tier, base_seed, budget, workers, tree):
     return agg, violation, broken, live_known
 
 
+def died(p):
+    """Did a child interpreter die abnormally (signal / sanitizer abort)?"""
+    return p.returncode < 0 or p.returncode >= 128 or p.returncode in (1, 2) and (
+        "ERROR: AddressSanitizer" in p.stderr or "runtime error:" in p.stderr)
+
+
+def crash_signature(p):
+    tail = (p.stderr or "")[-1500:]
+    for line in (p.stderr or "").splitlines():
+        if "ERROR: AddressSanitizer" in line or "runtime error:" in line or "Fatal Python error" in line:
+            return line.strip()[:300], tail
+    if p.returncode < 0:
+        return "process killed by signal %d" % -p.returncode, tail
+    return "process exited with status %d" % p.returncode, tail
+
+
+def triage_crash(prop, base_seed):
+    """A worker died.  Find the in-flight run that kills a fresh interpreter,
+    minimise it with child-process executions, return (found, minimised,
+    signature) or None if the death does not reproduce."""
+    root = os.environ.get("SIMTRAITS_ROOT")
+    cands = set()
+    for f in os.listdir(root):
+        if f.startswith("inflight."):
+            try:
+                cands.add(int(open(os.path.join(root, f)).read().strip()))
+            except ValueError:
+                pass
+    for i in sorted(cands):
+        p = fresh_interpreter(["--digests", prop.ID, "--seed", str(base_seed),
+                               "--indices", str(i)], hashseed=0, timeout=120)
+        if not died(p):
+            continue
+        seed = run_seed(base_seed, prop.ID, i)
+        trace = prop.gen(seed)
+        sig, tail = crash_signature(p)
+        tmp = os.path.join(root, "crash_candidate.json")
+
+        def crashes(t):
+            with open(tmp, "w") as f:
+                json.dump({"property": prop.ID, "trace": t}, f, default=_js)
+            q = fresh_interpreter(["--replay-json", tmp], hashseed=0, timeout=120)
+            return died(q)
+        ops = list(trace.get("ops", ()))
+        execs = 0
+        n = 2
+        while len(ops) >= 2 and execs < 120:
+            chunk = max(1, len(ops) // n)
+            reduced = False
+            for j in range(0, len(ops), chunk):
+                cand = ops[:j] + ops[j + chunk:]
+                execs += 1
+                if crashes(dict(trace, ops=cand)):
+                    ops = cand
+                    n = max(n - 1, 2)
+                    reduced = True
+                    break
+            if not reduced:
+                if chunk == 1:
+                    break
+                n = min(len(ops), n * 2)
+        minimised = dict(trace, ops=ops)
+        found = {"index": i, "seed": seed, "trace": trace,
+                 "v": {"check_id": prop.ID + ".crash", "msg": sig, "step": None},
+                 "digest": None}
+        return found, minimised, sig, tail, execs
+    return None
+
+
+def write_crash_replay(prop, found, minimised, base_seed, tree, sig, tail):
+    rep = {"property": prop.ID, "check_id": prop.ID + ".crash",
+           "message": "the interpreter died while executing this history: " + sig,
+           "step": None, "base_seed": base_seed, "run_index": found["index"],
+           "run_seed": found["seed"], "digest": None, "tree": tree,
+           "original_ops": len(found["trace"].get("ops", ())), "trace": minimised,
+           "stderr_tail": tail}
+    d = os.path.join(OUT, "replays")
+    os.makedirs(d, exist_ok=True)
+    path = os.path.join(d, "%s-%d.json" % (prop.ID, found["seed"]))
+    with open(path, "w") as f:
+        json.dump(rep, f, indent=1, sort_keys=True, default=_js)
+        f.write("\n")
+    return path, rep
+
+
 def determinism_crosscheck(prop, base_seed, digests, count):
     """Re-run a sample of run indices in a fresh interpreter under another
     PYTHONHASHSEED and compare digests."""
@@ -546,11 +641,25 @@ def cmd_check(args):
     agg, violation, broken, live_known = search(prop, tier, base_seed, budget,
                                                 workers, tree)
     extra = {"known_findings_printed": [k["id"] for k in live_known]}
-    if broken and not getattr(prop, "CRASH_IS_VIOLATION", False):
-        print("HARNESS-ERROR %s" % broken)
-        write_evidence(prop, tier, base_seed, agg, 0, time.time() - t0,
-                       dict(extra, harness_error=broken))
-        return 2
+    if broken:
+        # a dead worker: if a fresh interpreter dies on one of the in-flight runs
+        # too, the compiled core crashed under documented API use - a violation
+        res = triage_crash(prop, base_seed) if "worker died" in broken else None
+        if res is None:
+            print("HARNESS-ERROR %s" % broken)
+            write_evidence(prop, tier, base_seed, agg, 0, time.time() - t0,
+                           dict(extra, harness_error=broken))
+            return 2
+        found, minimised, sig, tail, execs = res
+        path, rep = write_crash_replay(prop, found, minimised, base_seed, tree, sig, tail)
+        extra.update({"shrink_executions": execs, "minimised_ops": len(minimised.get("ops", ())),
+                      "original_ops": rep["original_ops"], "crash": sig})
+        write_evidence(prop, tier, base_seed, agg, 1, time.time() - t0, extra)
+        print("crash found: run index %d: %s" % (found["index"], sig))
+        print("minimised %d ops -> %d ops in %d child executions; check=%s"
+              % (rep["original_ops"], extra["minimised_ops"], execs, rep["check_id"]))
+        print("VIOLATION property=%s replay=%s" % (prop.ID, path))
+        return 1
     if agg["errors"]:
         i, seed, err = agg["errors"][0]
         print("HARNESS-ERROR run index %d (run seed %d):\n%s" % (i, seed, err))
@@ -623,6 +732,18 @@ def cmd_digests(args):
 def cmd_replay(path, as_json):
     with open(path) as f:
         rep = json.load(f)
+    if not as_json and str(rep.get("check_id", "")).endswith(".crash"):
+        # executing it here would kill this process: use a child
+        p = fresh_interpreter(["--replay-json", path], hashseed=0, timeout=300)
+        if died(p):
+            sig, tail = crash_signature(p)
+            print(tail)
+            print("reproduced check=%s: %s" % (rep["check_id"], sig))
+            print("VIOLATION property=%s replay=%s" % (rep["property"], path))
+            return 1
+        print("NOT-REPRODUCED property=%s replay=%s (recorded check=%s)"
+              % (rep["property"], path, rep.get("check_id")))
+        return 0
     prop = load_prop(rep["property"])
     out = execute_trace(prop, rep["trace"], record=not as_json)
     v = out.violation
